@@ -94,7 +94,7 @@ fn uses_scratch_d(op: &str) -> bool {
     matches!(op, "idft_apply") || op.starts_with("vmp_") || op.starts_with("cnv_")
 }
 
-fn fam_v<B: Bk>(run: &mut Run)
+pub fn fam_v<B: Bk>(run: &mut Run)
 where
     Module<B>: HalAll<B>,
 {
@@ -108,7 +108,7 @@ where
     );
 }
 
-fn fam_d<B: Bk>(run: &mut Run)
+pub fn fam_d<B: Bk>(run: &mut Run)
 where
     Module<B>: HalAll<B>,
 {
